@@ -125,6 +125,7 @@ class Smt:
         self._keep = []
         self.pc = []
         self.fmod_apps = []
+        self.int_views = {}
 
     def end_path(self):
         self.s.pop()
